@@ -522,6 +522,9 @@ class CQueue:
         self.maxsize = maxsize
         self.unfinished_tasks = 0
         self._init(maxsize)
+        # code that reaches into the stdlib Queue's documented-by-convention internals (`with q.mutex:` around q.queue)
+        # finds a controlled lock here
+        self.mutex = CLock()
 
     # data part: the stdlib algorithms
     def _init(self, maxsize):
